@@ -78,8 +78,13 @@ F32To64(b) ==
 (***************************************************************************)
 PadLeftZeros(digits, n) == IF Len(digits) >= n THEN digits ELSE Zeros(n - Len(digits)) \o digits
 
+\* The stored fields are UTC; the year range 0001..9999 applies to the local time they denote.
+LocalYearOf(ts) == IF ts.prec <= 3 THEN ts.y
+                   ELSE AddMinutes([y |-> ts.y, mo |-> ts.mo, d |-> ts.d, h |-> ts.h, mi |-> ts.mi],
+                                   IF ts.known THEN ts.off ELSE 0).y
+
 \* payload = bs[p..e]
-DecodeTimestamp(bs, p, e) ==
+DecodeTimestampFields(bs, p, e) ==
   LET o == VarInt(bs, p, e)
   IN IF ~o.ok THEN Rej("timestamp: bad offset", p)
      ELSE IF o.val >= 1440 THEN Rej("timestamp: offset of a day or more", p)
@@ -88,7 +93,7 @@ DecodeTimestamp(bs, p, e) ==
          off   == IF o.neg THEN 0 - o.val ELSE o.val
          yr    == VarUInt(bs, o.next, e)
      IN IF ~yr.ok THEN Rej("timestamp: missing year", o.next)
-        ELSE IF yr.val < 1 \/ yr.val > 9999 THEN Rej("timestamp: year out of range", o.next)
+        ELSE IF yr.val > 10000 THEN Rej("timestamp: year out of range", o.next)     \* UTC year; local year checked below
         ELSE IF yr.next > e THEN
              [ok |-> TRUE, ts |-> [y |-> yr.val, mo |-> 1, d |-> 1, h |-> 0, mi |-> 0, s |-> 0,
                                    frac |-> <<>>, off |-> off, known |-> known, prec |-> 1]]
@@ -144,6 +149,13 @@ DecodeTimestamp(bs, p, e) ==
                                    h |-> hh.val, mi |-> mi.val, s |-> ss.val,
                                    frac |-> PadLeftZeros(digits, nd),
                                    off |-> off, known |-> known, prec |-> 6]]
+
+DecodeTimestamp(bs, p, e) ==
+  LET r == DecodeTimestampFields(bs, p, e)
+  IN IF ~r.ok THEN r
+     ELSE IF r.ts.y < 1 /\ r.ts.prec <= 3 THEN Rej("timestamp: year out of range", p)
+     ELSE IF LocalYearOf(r.ts) < 1 \/ LocalYearOf(r.ts) > 9999 THEN Rej("timestamp: year out of range", p)
+     ELSE r
 
 (***************************************************************************)
 (* Decimals: payload = bs[p..e] (p > e means empty = 0d0)                  *)
